@@ -190,7 +190,17 @@ def _mutation_wrapper(
                 module.last_mutation = None
                 return
 
-            return method(*args, **kwargs)
+            # A handle onto a nested module's method ("head_net.add_node") is created once, but
+            # the nested module is replaced whenever the network is recreated: resolve the
+            # method on the module that is there now, not on the one this handle was made for
+            target = method
+            if "." in attribute:
+                submodule, _, nested_attribute = attribute.partition(".")
+                live = getattr(getattr(module, submodule, None), nested_attribute, None)
+                if callable(live):
+                    target = live
+
+            return target(*args, **kwargs)
 
     return wrapped
 
